@@ -27,7 +27,27 @@ var (
 	outsideCache = map[string]refcurve.Point{}
 	cofCache     = map[string]refcurve.Point{}
 	genCache     = map[string]refcurve.Point{}
+	tinyCache    = map[string]element{}
 )
+
+// tinyPoint is the first point whose first coordinate (y on Edwards curves) is >= start: a
+// coordinate so small that coordinate + p still fits into the encoding. Whether it lies in the
+// prime-order subgroup is decided by the model (it does on cofactor-1 curves).
+func tinyPoint(m *refcurve.Curve, start uint64) (refcurve.Point, bool) {
+	key := fmt.Sprintf("%s/%d", m.Name, start)
+	specialMu.Lock()
+	e, ok := tinyCache[key]
+	specialMu.Unlock()
+	if ok {
+		return e.pt, e.member
+	}
+	p := m.SearchPoint(start)
+	in := !hasCofactor(m) || m.IsInPrimeSubgroup(p)
+	specialMu.Lock()
+	tinyCache[key] = element{pt: p, member: in}
+	specialMu.Unlock()
+	return p, in
+}
 
 func outsidePoint(m *refcurve.Curve, start uint64) refcurve.Point {
 	key := fmt.Sprintf("%s/%d", m.Name, start)
@@ -125,6 +145,9 @@ func elementClasses(g *group, membersOnly bool) []string {
 	if g.wire == wireZcash && !membersOnly {
 		cs = append(cs, "outside", "outside", "cofactor")
 	}
+	if !hasCofactor(m) || !g.prime || !membersOnly {
+		cs = append(cs, "tiny", "tiny") // in the subgroup on cofactor-1 curves; elsewhere almost never
+	}
 	return cs
 }
 
@@ -160,6 +183,9 @@ func makeElement(g *group, class string, k *big.Int, aux int) element {
 	case "mixed":
 		j := 1 + aux%7
 		return element{class: fmt.Sprintf("mixed[%d]", j), pt: m.MixedOrderPoint(k, j), member: !g.prime}
+	case "tiny":
+		p, in := tinyPoint(m, uint64(1+aux%40))
+		return element{class: class, pt: p, member: in || !g.prime}
 	case "outside":
 		return element{class: class, pt: outsidePoint(m, uint64(1+aux%24)), member: false}
 	case "cofactor":
@@ -182,7 +208,7 @@ func drawElement(t *rapid.T, g *group, membersOnly bool, label string) element {
 		k = drawK(t, g.m, label+"k")
 	}
 	switch class {
-	case "mixed", "outside", "cofactor":
+	case "mixed", "outside", "cofactor", "tiny":
 		aux = rapid.IntRange(0, 1000).Draw(t, label+"aux")
 	}
 	return makeElement(g, class, k, aux)
